@@ -50,6 +50,11 @@ def main():
                 rc, out = sh(["git", "-C", wt, "apply", os.path.join(os.path.dirname(mp),
                                                                      "patch.diff")])
                 if rc:
+                    # the patch was written against an earlier HEAD of /repo (fix: commits
+                    # since then): fall back to a three-way merge on the recorded blobs
+                    rc, out = sh(["git", "-C", wt, "apply", "--3way",
+                                  os.path.join(os.path.dirname(mp), "patch.diff")])
+                if rc:
                     print(name, "patch does not apply", out[:200])
                     continue
                 props = sorted({k.split("/")[0] for k in (m.get("checks") or {})}) or \
